@@ -157,6 +157,8 @@ def run_strace(cli, sc, inject=None, timeout=60):
     cmd += [cli] + sc.args
     env = dict(os.environ)
     env['HOME'] = sc.home
+    env['TMPDIR'] = os.path.join(sc.top, 'tmp')     # inside the observed tree: a file staged there is seen (and is outside the skill directory)
+    os.makedirs(env['TMPDIR'], exist_ok=True)
     prior = fstrace.snapshot(sc.top)
     try:
         p = subprocess.run(cmd, cwd=sc.cwd, env=env, capture_output=True, text=True, timeout=timeout)
